@@ -44,7 +44,7 @@ REAL_VS_STUB = {"real": ["molli.chem.ensemble.ConformerEnsemble / Conformer", "_
 INTERP_VARIANTS = [{"flags": ["-O"], "runs": {"quick": 2000, "thorough": 30000}, "what": "python -O (assert statements stripped from the code under test)"}]
 PROBES = ["iter_plain", "iter_nested", "iter_zip", "iter_restart", "two_or_more_tasks_interleaved", "mutator_between_nexts", "append", "extend_list",
           "extend_ens", "extend_oneshot_iterable", "held_view_checked_after_mutation", "refused_append_or_extend", "atom_relabelled_between_stores", "copy_construct", "rebuild_from_conformers", "slice", "write_through_conformer", "serialise_roundtrip", "conformer_dump",
-          "empty_ensemble_iterated", "history_continues_on_reloaded_ensemble", "conformers_of_a_temporary_ensemble", "ensemble_dump_roundtrip", "own_conformers_appended", "per_conformer_rotation", "refused_rotation", "iter_legacy_next"]
+          "empty_ensemble_iterated", "history_continues_on_reloaded_ensemble", "conformers_of_a_temporary_ensemble", "ensemble_dump_roundtrip", "own_conformers_appended", "per_conformer_rotation", "refused_rotation", "iter_legacy_next", "extend_mixed_kinds"]
 
 TEMPLATES = {
     "neon": (["Ne"], []),
@@ -70,7 +70,7 @@ def gen_plan(r, tier, index):
     phases = []
     for _ in range(r.choice([2, 3, 3, 4, 5, 7])):
         if r.random() < 0.45:
-            phases.append({"type": "op", "op": r.choice(["append", "append", "extend_list", "extend_ens", "extend_gen", "extend_iter", "extend_tuple", "copy", "rebuild", "slice", "append_bad", "extend_bad", "reload", "reload", "temp_views", "append_self", "extend_self"]),
+            phases.append({"type": "op", "op": r.choice(["append", "append", "extend_list", "extend_ens", "extend_gen", "extend_iter", "extend_tuple", "copy", "rebuild", "slice", "append_bad", "extend_bad", "reload", "reload", "temp_views", "append_self", "extend_self", "extend_mixed"]),
                            "n": r.choice([1, 1, 2, 3]), "cseed": r.randrange(1 << 30)})
         else:
             nt = r.choice([1, 1, 2, 2, 3])
@@ -311,6 +311,19 @@ def _run_plan(plan, trace=False):
                         idx = [rr.choice([-1, 0, -nc0, rr.randrange(-nc0, nc0)]) for _ in range(ph["n"])]
                         ens.extend([ens[i] for i in idx])
                         mc = np.concatenate([mc] + [mc[i % nc0][np.newaxis] for i in idx], axis=0)
+                elif op == "extend_mixed":
+                    # a list that mixes kinds of geometries: plain Structures (no partial charges), Molecules, a conformer
+                    res.stats["probe:extend_mixed_kinds"] += 1
+                    items_ = []
+                    for k in range(ph["n"]):
+                        m_ = _mk_mol(base["tmpl"], newc[k], "ext")
+                        items_.append(ml.Structure(m_) if k % 2 == 0 else m_)
+                    extra_ = []
+                    if mc.shape[0]:
+                        items_.append(ens[0])
+                        extra_ = [mc[0:1]]
+                    ens.extend(items_)
+                    mc = np.concatenate([mc, newc] + extra_, axis=0)
                 elif op == "extend_list":
                     res.stats["probe:extend_list"] += 1
                     ens.extend([_mk_mol(base["tmpl"], newc[k], "ext") for k in range(ph["n"])])
